@@ -102,6 +102,33 @@ fn typed_roundtrip(v: &Value) -> Result<Option<(String, Value)>, String> {
     }
 }
 
+/// maximum bracket nesting of a JSON text (brackets inside strings do not count)
+fn json_nesting(t: &str) -> usize {
+    let (mut d, mut max, mut in_str, mut esc) = (0usize, 0usize, false, false);
+    for b in t.bytes() {
+        if in_str {
+            if esc {
+                esc = false;
+            } else if b == b'\\' {
+                esc = true;
+            } else if b == b'"' {
+                in_str = false;
+            }
+            continue;
+        }
+        match b {
+            b'"' => in_str = true,
+            b'{' | b'[' => {
+                d += 1;
+                max = max.max(d);
+            }
+            b'}' | b']' => d = d.saturating_sub(1),
+            _ => {}
+        }
+    }
+    max
+}
+
 pub fn report(ctx: &mut Ctx, m: &MVal, bits: u64, enc: u8, dec: u8, first: RtFail) {
     if ctx.shrinks >= 40 {
         ctx.violation(&format!("json-roundtrip:{}:unshrunk", first.class), &first.detail, json!({"value": truncate(&m.show(), 1500), "json": first.text.map(|t| truncate(&t, 1500))}));
@@ -210,6 +237,27 @@ pub fn run(ctx: &mut Ctx) {
             report(ctx, &m, 0, enc, dec, f);
         }
     }
+    // boundary offsets: a character that needs an escape or several bytes, at every byte offset up to 1100 and around
+    // 2^11, 2^12, 2^13, 2^16 of a Str, a Ref display name, an XStr value, a Uri and a dict tag
+    {
+        let lens = crate::gen::boundary_lengths();
+        for (li, n) in lens.iter().enumerate() {
+            if (li as u64) % ctx.nshards != ctx.shard || (ctx.quick() && *n > 1100 && *n < 65000) {
+                continue;
+            }
+            if !ctx.begin("boundary-offset", li as u64) {
+                continue;
+            }
+            for c in crate::gen::BOUNDARY_CHARS {
+                let m = crate::gen::boundary_value(*n, c);
+                ctx.eval("boundary-offset", crate::prng::mix(&[*n as u64, c as u64]), true);
+                let (enc, dec) = ((*n % 4) as u8, ((*n / 4) % 4) as u8);
+                if let Err(f) = json_roundtrip(&m, 0, enc, dec) {
+                    report(ctx, &m, 0, enc, dec, f);
+                }
+            }
+        }
+    }
     // deep chains: every depth up to the decoder's documented limit (127 nested containers; for Hayson a grid costs
     // three JSON levels of serde_json's 128, so grid chains stop at 42)
     if ctx.shard == 0 {
@@ -219,10 +267,9 @@ pub fn run(ctx: &mut Ctx) {
             for d in [1usize, 2, 3, 5, 8, 13, 21, 34, 40, 42, 55, 64, 89, 100, 120, 126, 127] {
                 let i = idx;
                 idx += 1;
-                // serde_json counts JSON levels: a grid level is an object, an array and an object
-                let json_levels = if kinds.iter().any(|k| *k >= 2) { 3 * d } else { d };
-                // (+1: the innermost scalar may itself be an object, e.g. a Ref)
-                if json_levels + 1 > 127 {
+                // serde_json counts JSON levels (a grid level is an object, an array and an object; a Ref is an object):
+                // cheap pre-filter here, the exact count is taken from the document below
+                if d > 127 {
                     continue;
                 }
                 if !ctx.begin("deep-chain", i) {
@@ -232,6 +279,13 @@ pub fn run(ctx: &mut Ctx) {
                 let m = crate::gen::deep_chain(&mut rng, d, kinds);
                 ctx.eval(&format!("deep-chain:{fam}"), m.fp(), true);
                 ctx.note_max("max_nesting_depth_round_tripped", d as f64);
+                // deeper than serde_json's limit of 128 levels: outside the stated bound
+                let levels = serde_json::to_string(&to_value_with(&m, 0)).map(|t| json_nesting(&t)).unwrap_or(usize::MAX);
+                if levels > 127 {
+                    ctx.stratum("deep-chain:beyond-serde_json-limit");
+                    continue;
+                }
+                ctx.note_max("max_json_levels_round_tripped", levels as f64);
                 let (enc, dec) = ((d % 4) as u8, ((d / 4) % 4) as u8);
                 if let Err(f) = json_roundtrip(&m, 0, enc, dec) {
                     report(ctx, &m, 0, enc, dec, f);
